@@ -27,6 +27,12 @@ fn main() {
         println!("[{}] INCONCLUSIVE: reference crypto self-test failed: {e}", cli.prop);
         std::process::exit(2);
     }
+    if cli.prop == "C04" {
+        // what the application's log output does with a client's text is part of what that client's
+        // bytes cost: a subscriber that renders warnings and errors (and throws them away), which is
+        // what the binary's default log level does
+        let _ = tracing_subscriber::fmt().with_writer(std::io::sink).with_max_level(tracing::Level::WARN).try_init();
+    }
     let code = match cli.prop.as_str() {
         "smoke" => mk::smoke(&cli),
         "C01" => c01::run_prop(&cli),
